@@ -75,6 +75,7 @@ func (d *ndpDriver) install() {
 			return nil
 		}
 		l.pos = "sleep"
+		l.sleeps++
 		c.cond.Broadcast()
 		return l.tick
 	}
@@ -289,32 +290,17 @@ func (d *ndpDriver) step(a action) (rec map[string]interface{}) {
 		if pos != "check" {
 			return nil
 		}
-		e0 := c.nEvents()
-		if !c.release(l) || !c.waitFor(stepWait, func() bool {
-			for _, e := range c.events[e0:] {
-				if e.kind == "check" && e.loop == l.gid {
-					return true
-				}
-			}
-			return false
-		}) {
+		c.mu.Lock()
+		a0, s0 := l.arrived, l.sleeps
+		c.mu.Unlock()
+		// after the check the loop ends, parks at its next gate or enters its select: wait for whichever shows first
+		if !c.release(l) || !c.waitFor(stepWait, func() bool { return l.pos == "done" || l.arrived > a0 || l.sleeps > s0 }) {
 			d.infra = fmt.Sprintf("loop %d did not perform its check", l.local)
 			return nil
 		}
 		c.mu.Lock()
 		hunting, closed, router := l.hunting, l.closed, l.router
 		c.mu.Unlock()
-		want := "sleep"
-		if !hunting || closed {
-			want = "done"
-		} else if router {
-			want = "act"
-		}
-		ok := c.waitFor(stepWait, func() bool { return l.pos == want || l.pos == "done" })
-		if !ok {
-			// the loop went somewhere the three facts do not explain: report what is observed
-			c.waitFor(100*time.Millisecond, func() bool { return l.pos != "check" })
-		}
 		c.mu.Lock()
 		rec["hunting"], rec["closed"], rec["router"], rec["done"] = hunting, closed, router, l.pos == "done"
 		c.mu.Unlock()
